@@ -143,7 +143,11 @@ def _hist_add(hist, k, n=1):
 
 def write_replay(prop, kind, seed, payload):
     common.REPLAYS.mkdir(exist_ok=True)
-    name = f"{prop.pid}_{kind}_{seed}_{int(time.time())}_{os.getpid()}.json"
+    stem = f"{prop.pid}_{kind}_{seed}_{int(time.time())}_{os.getpid()}"
+    name, n = stem + ".json", 1
+    while (common.REPLAYS / name).exists():        # several violations within one second: one file each
+        n += 1
+        name = f"{stem}_{n}.json"
     p = common.REPLAYS / name
     payload = dict(payload)
     payload.update({"property": prop.pid, "kind": kind, "seed": seed,
